@@ -308,7 +308,34 @@ fn typed_docs(ep: &EntryPoint, t: Tier, f: &mut dyn FnMut(String)) {
     for first in 0..menus.len() {
         kdev_shard(&menus, k, Some(first), &mut go);
     }
+    // every short string over the delimiters that typed values are made of (quotes, '=', ',', brackets ...) as the value
+    // of each field in turn, in the otherwise all-valid document: a value codec sees a lone quote, an empty pair, a
+    // delimiter with nothing on one side of it
+    let alpha: &[&str] = t.pick(&SYNTAX_ALPHABET[..14], &SYNTAX_ALPHABET[..]);
+    let sp = SeqSpace::new(alpha, 3, 0);
+    for target in 0..fields.len() {
+        sp.explore(0, &mut |val, _| {
+            if val.is_empty() || val.starts_with('\n') && val.trim().is_empty() {
+                return;
+            }
+            let mut text = String::new();
+            for (pi, _) in paras.iter().enumerate() {
+                if pi > 0 {
+                    text.push('\n');
+                }
+                for (fidx, (fpi, fs)) in fields.iter().enumerate() {
+                    if *fpi == pi {
+                        text.push_str(&render_para(&[(fs.name, if fidx == target { val } else { fs.valid[0] })]));
+                    }
+                }
+            }
+            f(text);
+        });
+    }
 }
+
+/// delimiters of the typed value grammars, most common first (quick tier: the first 14)
+const SYNTAX_ALPHABET: [&str; 20] = ["a", "1", " ", "\n", "\"", "=", ",", ":", "(", "[", "<", "|", "-", "'", ")", "]", ">", "$", "/", "@"];
 
 impl Prop for C02 {
     type Case = C02Case;
@@ -319,7 +346,7 @@ impl Prop for C02 {
         "model_checking"
     }
     fn rule(&self, _t: Tier) -> String {
-        "for each of the 60+ text-parsing entry points: (1) every string over its native character-class alphabet up to the length bound (full input trie; states = strings); (2) every sequence of its line templates / tokens up to the sequence bound; (3) pumped inputs w^k for every w up to length 2 (thorough 3) with k in {8, 64} (thorough 512), unbalanced nests and 20 kB (thorough 100 kB) single lines; (4) for the VCS-location codecs every sequence of 4-6 (thorough 7) tokens of the longest value grammar (url, opening bracket, subpath, closing bracket, -b, branch, blank); (5) for typed documents, the all-valid document built from the type's field table with <= 1 (thorough 2) fields absent or replaced by one of 7 garbage values or up to 6 near-valid values (pieces of the valid values of the field: first / last item, value cut short, value with a trailing comma), each document also without its final newline, with CR LF line ends, and with tab indentation and no blank after the colon; each call runs under catch_unwind with the parser loop budget armed (quadratic envelope), the allocation cap and the stall watchdog, and pumped inputs are also timed; non-trivial = distinct (entry point, non-empty string) of tiers 1-2".into()
+        "for each of the 60+ text-parsing entry points: (1) every string over its native character-class alphabet up to the length bound (full input trie; states = strings); (2) every sequence of its line templates / tokens up to the sequence bound; (3) pumped inputs w^k for every w up to length 2 (thorough 3) with k in {8, 64} (thorough 512), unbalanced nests and 20 kB (thorough 100 kB) single lines; (4) for the VCS-location codecs every sequence of 4-6 (thorough 7) tokens of the longest value grammar (url, opening bracket, subpath, closing bracket, -b, branch, blank); (5) for typed documents, the all-valid document built from the type's field table with <= 1 (thorough 2) fields absent or replaced by one of 7 garbage values or up to 6 near-valid values (pieces of the valid values of the field: first / last item, value cut short, value with a trailing comma) and, one field at a time, by every string of <= 3 symbols over 14 (thorough 20) delimiter characters of the typed value grammars (quotes, '=', ',', ':', brackets, '|', '-'), each k-deviation document also without its final newline, with CR LF line ends, and with tab indentation and no blank after the colon; each call runs under catch_unwind with the parser loop budget armed (quadratic envelope), the allocation cap and the stall watchdog, and pumped inputs are also timed; non-trivial = distinct (entry point, non-empty string) of tiers 1-2".into()
     }
     fn bounds(&self, t: Tier) -> Value {
         let eps = entry_points();
